@@ -22,9 +22,11 @@ PROPERTIES = {
             "std::vector<bool> (resize, flip, clear, copy, ==), std::find/std::count, std::string as modelled",
         ],
         "assumptions": [
-            "positions, sizes and shift distances are below 2^52: (pos + 1) * 1.5 in double is then exactly "
-            "floor((pos+1)*3/2), pos + 1 and size + pos do not wrap, ssize_t holds every position and the vector "
-            "can be allocated (a failing allocation inside a noexcept(true) operator terminates the program)",
+            "positions and shift distances below 2^51 are an explicit hypothesis of the theorems (posLimit; beyond it the "
+            "model answers oob 'not modelled'): (pos + 1) * 1.5 in double is then exactly floor((pos+1)*3/2), pos + 1 and "
+            "size + pos do not wrap, ssize_t holds every position",
+            "still assumed: vector sizes below vector<bool>::max_size() and the vector can be allocated (a failing "
+            "allocation inside a noexcept(true) operator terminates the program)",
             "reset() (no argument) is outside the refinement theorem: recorded finding reset-all-empties",
         ],
     }
@@ -114,6 +116,14 @@ SIZES = [0, 0, 1, 2, 3, 4, 5, 7, 8, 16, 31, 32, 33, 63, 64, 64, 65, 66, 70, 127,
 SYMS = ["@size-1", "@size", "@size", "@size+1", "@size*2"]
 SHIFTS = ["0", "1", "@size-1", "@size", "@size+1", "@size*3"]
 MAXSIZE = 700
+BITSET_N = [0, 1, 2, 3, 4, 5, 6, 7, 8, 9, 16, 31, 32, 33, 63, 64, 65, 70, 128]   # std::bitset<N> instantiated in the harness
+STR_CHARS = ".x#ab01_"
+
+
+def rand_script(rng):
+    """iterator walk: optional start at the end position, then pre/post increments and decrements"""
+    body = "".join(rng.choice("++--pm") for _ in range(rng.randint(1, 9)))
+    return ("e" if rng.random() < 0.4 else "") + body
 
 
 def rand_bits(rng, n):
@@ -143,6 +153,8 @@ def random_case(rng, cid):
         k = rng.choice(SIZES)
         if rng.random() < 0.2:
             lines.append("dbs newn %s %d" % (n, k))
+        elif rng.random() < 0.1 and k in BITSET_N:
+            lines.append("dbs newbs %s %s" % (n, rand_bits(rng, k)))
         else:
             lines.append("dbs new %s %s" % (n, rand_bits(rng, k)))
         sizes[n] = k
@@ -219,13 +231,23 @@ def random_case(rng, cid):
             if d not in names:
                 names = sorted(names + [d])
             lines.append("dbs %s %s %s" % (rng.choice(["not", "copy"]), n, d))
-        elif kind < 0.95:
+        elif kind < 0.94:
             lines.append("dbs eq %s %s" % (n, rng.choice(names)))
-        else:
+        elif kind < 0.96:
             lines.append("dbs %s %s" % (rng.choice(["fwd", "rev"]), n))
+        elif kind < 0.98:
+            lines.append("dbs %s %s %s" % (rng.choice(["it", "rit"]), n, rand_script(rng)))
+        elif kind < 0.99:
+            lines.append("dbs strc %s %s %s" % (n, rng.choice(STR_CHARS), rng.choice(STR_CHARS)))
+        else:
+            k = rng.choice(BITSET_N)
+            sizes[n] = k
+            lines.append("dbs asgbs %s %s" % (n, rand_bits(rng, k)))
     for n in names:
         lines.append("dbs fwd %s" % n)
         lines.append("dbs rev %s" % n)
+        lines.append("dbs it %s %s" % (n, rand_script(rng)))
+        lines.append("dbs rit %s %s" % (n, rand_script(rng)))
     return Case(cid, lines)
 
 
@@ -242,6 +264,17 @@ def exhaustive_cases(maxlen, maxarg, maxother, with_reset):
     cases = []
     k = 0
     tail = ["dbs fwd r", "dbs rev r"]
+    # every bitset: walks with all four iterator operators from both start positions, other to_string
+    # characters, construction from / assignment of a std::bitset<N>
+    walks = ["e---+++", "pm-+", "+-+-", "epmm", "--++", "mp"]
+    for bits in all_bits(maxlen):
+        k += 1
+        lines = ["dbs newbs r %s" % bits, "dbs strc r . x"]
+        for w in walks:
+            lines += ["dbs it r %s" % w, "dbs rit r %s" % w]
+        for other in all_bits(min(maxother, 3)):
+            lines += ["dbs asgbs r %s" % other, "dbs fwd r"]
+        cases.append(Case("x%d" % k, lines))
     nullary = ["setall", "flipall", "obs"] + (["resetall"] if with_reset else [])
     for bits in all_bits(maxlen):
         head = "dbs new r %s" % bits
